@@ -42,6 +42,8 @@ def label(i, labels="int"):
         return "z%d" % (9 - i)
     if labels == "intrev":
         return 100 - i
+    if labels == "strempty":
+        return "" if i == 1 else "m%d" % i
     raise ValueError(labels)
 
 
